@@ -319,7 +319,10 @@ def rule_fanout(ctx):
     for lp, label, cond_extra in ((tl, 'touched', False), (ml, 'mempool', True)):
         sas = [c for c in walk_own(lp) if isinstance(c, ast.Call) and q.callee_name(ctx, f, c) == 'self.subscription_address_status']
         recs = [s for s in walk_own(lp) if isinstance(s, ast.Assign) and isinstance(s.targets[0], ast.Subscript) and norm(s.targets[0].value) == chv]
-        ok = len(sas) == 1 and len(recs) == 1 and isinstance(q.stmt(sas[0]), ast.Assign) and norm(recs[0].value) == norm(q.stmt(sas[0]).targets[0])
+        # the status is recorded from a local bound to the awaited call, or straight from the awaited call
+        direct = len(sas) == 1 and len(recs) == 1 and isinstance(recs[0].value, ast.Await) and recs[0].value.value is sas[0]
+        ok = len(sas) == 1 and len(recs) == 1 and isinstance(q.stmt(sas[0]), ast.Assign) and \
+            (direct or norm(recs[0].value) == norm(q.stmt(sas[0]).targets[0]))
         if ok:
             hx = norm(lp.target.elts[0]) if isinstance(lp.target, ast.Tuple) else norm(lp.target)
             ok = norm(sas[0].args[0]) == hx
